@@ -1322,11 +1322,16 @@ func (fc *funcContext) translateImplicitConversion(expr ast.Expr, desiredType ty
 			// wrap JS object into js.Object struct when converting to interface
 			return fc.formatExpr("new $jsObjectPtr(%e)", expr)
 		}
+		if _, isArray := exprType.Underlying().(*types.Array); isArray {
+			// Arrays are values: the interface must hold its own copy.
+			return fc.formatExpr("new %1s($clone(%2e, %1s))", fc.typeName(exprType), expr)
+		}
 		if isWrapped(exprType) {
 			return fc.formatExpr("new %s(%e)", fc.typeName(exprType), expr)
 		}
 		if _, isStruct := exprType.Underlying().(*types.Struct); isStruct {
-			return fc.formatExpr("new %1e.constructor.elem(%1e)", expr)
+			// Structs are values: the interface must hold its own copy.
+			return fc.formatExpr("new %1e.constructor.elem($clone(%1e, %1e.constructor.elem))", expr)
 		}
 	}
 
